@@ -230,6 +230,18 @@ structure DPolicy (K : Type) where
 def dgalerkin (A P R : List (DistMat K)) (part nextPart : List Nat) : List (DistMat K) :=
   distProduct R (distProduct A P part nextPart) part nextPart
 
+/-- a coarsening that hands out GIVEN transfer operators (a recording-style coarsening policy: `transfer_operators`
+returns the stored `P_l`, `R_l` distributed by the stored partitions, `coarse_operator` is the Galerkin product) -/
+def givenPolicy (trs : List (CRS K × CRS K)) (parts : List (List Nat)) : DPolicy K :=
+  { transfer := fun l _ _ =>
+      match trs[l]? with
+      | some (P, R) =>
+        let pl := parts.getD l []
+        let pn := parts.getD (l + 1) []
+        (split P pl pn, split R pn pl, pn)
+      | none => ([], [], []),
+    coarseOp := dgalerkin }
+
 /-- `level(a, prm, bprm, direct)` (mpi/amg.hpp:257-284): `sort_rows(*a)` (in place: the caller's matrix is sorted too),
 then either the direct solver or `A = a` and the relaxation; returns the level and the sorted matrix.
 `directOk`: the constructor of the serial solver on a master's consolidated matrix succeeds. -/
